@@ -143,6 +143,14 @@ int ADtest(int n, double *x, double *outputs)
     outputs[0] = -n+z/n;
     outputs[1] = 1.-AD(n, -n+z/n);
 
+    /* The small sample correction of AD can leave [0, 1] by a
+     * small amount for very regular samples */
+    if(outputs[1]>1.)
+        outputs[1] = 1.;
+
+    if(outputs[1]<0.)
+        outputs[1] = 0.;
+
     return 0;
  }
 
